@@ -163,10 +163,50 @@ pub fn c16_eval(ast: &Node, flags: Flags, hays: &[Hay], known: &Known, st: &mut 
     }
 }
 
+/// Duplicate names over two to four alternatives (which one participated: first, middle, last).
+fn dup_family() -> Vec<Node> {
+    let a = || Node::Char('a' as u32);
+    let b = || Node::Char('b' as u32);
+    let arms: Vec<Node> = vec![Node::named(a(), "n"), Node::named(b(), "n"), Node::named(Node::Empty, "n"), Node::named(Node::named(a(), "m"), "n"), Node::Cat(vec![Node::named(a(), "m"), Node::named(b(), "n")]), Node::group(b()), a()];
+    let mut out = Vec::new();
+    let k = arms.len();
+    for len in 2..=4usize {
+        let total = k.pow(len as u32);
+        for idx in 0..total {
+            let mut v = Vec::new();
+            let mut r = idx;
+            for _ in 0..len {
+                v.push(arms[r % k].clone());
+                r /= k;
+            }
+            let alt = Node::Alt(v);
+            out.push(alt.clone());
+            out.push(Node::Cat(vec![Node::NonCap(Box::new(alt.clone())), Node::NamedRef("n".into())]));
+            out.push(Node::Cat(vec![Node::look(true, false, alt.clone()), Node::NamedRef("n".into())]));
+            out.push(Node::quant(Node::NonCap(Box::new(alt)), 0, None, true));
+        }
+    }
+    out
+}
+
 pub fn c16(run: &mut Run) -> Stats {
-    run.rule = "every AST of P-named (named, unnamed and duplicate-named groups, \\k and \\1 references, lookbehind, quantifiers), P-look and P-core up to the size bound x flags x every haystack x every match of find_iter; non-trivial = the pattern has at least one capturing group".into();
+    run.rule = "every alternation of 2-4 arms from a 7-arm menu of (duplicate-)named groups, alone, before \\k<n>, inside a lookbehind and under *; every AST of P-named (named, unnamed and duplicate-named groups, \\k and \\1 references, lookbehind, quantifiers), P-look and P-core up to the size bound x flags x every haystack x every match of find_iter; non-trivial = the pattern has at least one capturing group".into();
     run.assumptions = vec!["captures are compared with the ES2025 reference matcher; the accessor identities are checked on every match".into()];
-    sweep::drive(run, "C16", &["named", "look", "core"], &|sp, th| enumerate::all_hays(&sp.alphabet, if th { sp.hay_thorough } else { sp.hay_quick }), &c16_eval)
+    let st = sweep::drive(run, "C16", &["named", "look", "core"], &|sp, th| enumerate::all_hays(&sp.alphabet, if th { sp.hay_thorough } else { sp.hay_quick }), &c16_eval);
+    let fam = dup_family();
+    let hays = enumerate::all_hays(&enumerate::chars("ab"), 3);
+    let known = &run.known;
+    let st2 = fam
+        .par_iter()
+        .fold(Stats::default, |mut st, ast| {
+            for f in ["", "u"] {
+                c16_eval(ast, Flags::parse(f), &hays, known, &mut st);
+            }
+            st
+        })
+        .reduce(Stats::default, Stats::merge);
+    run.extra.push(("duplicate_name_family".into(), J::obj().set("patterns", J::u(fam.len() as u64)).set("evaluations", J::u(st2.get("evaluations")))));
+    st.merge(st2)
 }
 
 // ---------------------------------------------------------------- C17
@@ -240,7 +280,7 @@ pub fn c17(run: &mut Run) -> Stats {
     let tlen = if thorough { 6 } else { 5 };
     let alphabet: Vec<char> = vec!['$', '0', '1', '2', '9', '{', '}', 'n', 'x', 'é'];
     run.rule = format!(
-        "all templates over {{$ 0 1 2 9 {{ }} n x é}} of length <= {} x a menu of (pattern, flags, haystack) whose match sequences cover: no match, one, adjacent, empty matches at every position incl. around multibyte characters, non-participating and named groups; replace, replace_all, replace_with, replace_all_with; non-trivial = the template contains a $ and the regex matches",
+        "all templates over {{$ 0 1 2 9 {{ }} n x é}} of length <= {} plus all sequences of <= 4 (5 thorough) tokens from {{$ $$ $0 $1 $2 $12 $9 ${{n}} ${{x}} ${{nx}} ${{ ${{}} }} {{ n é 0}} x a menu of (pattern, flags, haystack) whose match sequences cover: no match, one, adjacent, empty matches at every position incl. around multibyte characters, non-participating and named groups; replace, replace_all, replace_with, replace_all_with; non-trivial = the template contains a $ and the regex matches",
         tlen
     );
     run.assumptions = vec!["model: splice-and-expand over find_iter's own match sequence (mc/src/apichecks.rs expand_model); named lookups use the participating group (C16)".into()];
@@ -254,6 +294,8 @@ pub fn c17(run: &mut Run) -> Stats {
         ("(a)|(b)", "", "ab"),
         ("(a)|(b)", "", "éba"),
         ("(?<n>a)|(?<x>b)", "", "ab"),
+        ("(?<n>a)|(?<x>b)", "", "b"),
+        ("(?<n>\\w+) (?<x>\\w+)", "", "ab ba"),
         ("(?<n>a)|(?<n>b)", "", "ba"),
         ("(?<n>é)(x)?", "", "éxé"),
         ("(a)(b)(c)(d)(e)(f)(g)(h)(i)(j)(k)(l)", "", "abcdefghijkl"),
@@ -282,6 +324,29 @@ pub fn c17(run: &mut Run) -> Stats {
         }
         templates.extend(next.iter().cloned());
         prev = next;
+    }
+    // token-level templates: sequences of whole references and fragments (reaches multi-reference
+    // templates such as "${x}${n}" that the character-level enumeration cannot at this length)
+    {
+        let toks = ["$", "$$", "$0", "$1", "$2", "$12", "$9", "${n}", "${x}", "${nx}", "${", "${}", "}", "{", "n", "é", "0"];
+        let tl = if thorough { 5 } else { 4 };
+        let mut prevt: Vec<String> = vec![String::new()];
+        let mut seen: std::collections::HashSet<String> = templates.iter().cloned().collect();
+        for _ in 0..tl {
+            let mut next = Vec::new();
+            for p in &prevt {
+                for t in toks {
+                    let q = format!("{}{}", p, t);
+                    next.push(q);
+                }
+            }
+            for q in &next {
+                if seen.insert(q.clone()) {
+                    templates.push(q.clone());
+                }
+            }
+            prevt = next;
+        }
     }
     let known = run.known.clone();
     let compiled: Vec<(regress::Regex, &str, &str, &str)> = menu
@@ -422,7 +487,7 @@ pub fn c18(run: &mut Run) -> Stats {
     let slen = if thorough { 4 } else { 3 };
     let alphabet: Vec<char> = "\\^$.|?*+()[]{}-/&,aAkſ1é😀\n ".chars().collect();
     run.rule = format!(
-        "all strings s over {{14 syntax characters, - / & , a A k U+017F 1 é U+1F600 LF space}} of length <= {} x all 24 flag sets ({{i,m,s}} x {{none,u,v}}) x haystacks built from s (s, s.s, x.s.x, every proper prefix, case-swapped s, empty, s with the last character dropped and doubled); non-trivial = s is non-empty and occurs in the haystack",
+        "all strings s over {{14 syntax characters, - / & , a A k U+017F 1 é U+1F600 LF space}} of length <= {} x all 24 flag sets ({{i,m,s}} x {{none,u,v}}) x haystacks built from s (s, s.s, x.s.x, every proper prefix, case-swapped s, empty, s with the last character dropped and doubled, s with each character replaced by NUL or x); non-trivial = s is non-empty and occurs in the haystack",
         slen
     );
     run.assumptions = vec!["occurrence model: leftmost non-overlapping substring search on code points; under i, per-character equivalence from the oracle fold tables (C10's relation)".into()];
@@ -512,6 +577,16 @@ pub fn c18(run: &mut Run) -> Stats {
                 d.pop();
                 hays.push(d.iter().collect::<String>() + &s);
                 hays.push(format!("{}{}", s, l));
+            }
+            // near misses: s with one character replaced by NUL or by 'x', alone and embedded
+            for k in 0..sc.len() {
+                for r in ['\0', 'x'] {
+                    let mut d = sc.clone();
+                    d[k] = r;
+                    let ds: String = d.iter().collect();
+                    hays.push(format!("{}{}", ds, s));
+                    hays.push(ds);
+                }
             }
             hays.sort();
             hays.dedup();
